@@ -10,24 +10,22 @@
    sequentialised (disjoint halves), and C18_unique / C18_schedule_independent_partial say that under a
    total order the result cannot depend on anything but the input.
 
-   `_partial`: partition_in_blocks (250 lines of raw-pointer block partitioning) enters these theorems
-   through its CONTRACT (pib_perm / pib_ok of Spec/SortSpec.v), an explicit hypothesis.  Everything else
-   -- shift_tail/insertion_sort, sift_down/heapsort, partial_insertion_sort, partition (the scans and the
-   two swaps around partition_in_blocks), partition_equal, choose_pivot (index in range), break_patterns,
-   the recursion with limit / pred / sequential-vs-join / the two cancel checks -- is modelled concretely
-   and proved.  The executable model Model.ParSort.partition_in_blocks of the block partition is tied to
-   the real code by the correspondence run of ./check C18 (exact equality of the final array, also for
-   weak orders with ties and for comparators that are not orders at all) and its contract is checked on
-   every generated case; the full statements that are therefore NOT theorems are:
+   The theorems named `_partial` take partition_in_blocks (250 lines of raw-pointer block partitioning)
+   through its CONTRACT (pib_perm / pib_ok of Spec/SortSpec.v) as an explicit hypothesis; they are kept
+   because they hold for ANY block partition that meets the contract.  The contract itself is a theorem
+   for the executable model of the real block partition (C18_pib_contract, Proofs/PibFacts.v: the
+   BlockQuicksort offsets / cyclic-swap loop for every comparator), so the full statements
 
-     C18_perm   : forall A less oracle v, Permutation (r_list (par_quicksort_model less oracle v)) v
-     C18_sorted : forall A less oracle v, strict_weak_order less -> (forall k, oracle k = false) ->
-                  r_flag (par_quicksort_model less oracle v) = false /\
-                  sorted less (r_list (par_quicksort_model less oracle v))
-     C18_cancel : likewise with par_quicksort_model
+     C18_perm, C18_sorted, C18_cancel, C18_no_panic, C18_schedule_independent
 
-   (par_quicksort_model less = par_quicksort less (partition_in_blocks less); they follow from the
-   `_partial` theorems and `pib_ok less (partition_in_blocks less)`.) *)
+   at the end of this file are UNCONDITIONAL theorems about par_quicksort_model less =
+   par_quicksort less (partition_in_blocks less), i.e. about the model of the whole of src/par_sort.rs:
+   shift_tail/insertion_sort, sift_down/heapsort, partial_insertion_sort, partition (the scans and the
+   two swaps around partition_in_blocks), partition_in_blocks, partition_equal, choose_pivot,
+   break_patterns, the recursion with limit / pred / sequential-vs-join / the two cancel checks.
+   Model.ParSort.partition_in_blocks is tied to the real code by the correspondence run of ./check C18
+   (exact equality of the final array, also for weak orders with ties and for comparators that are not
+   orders at all). *)
 From Coq Require Import List Bool Arith NArith Permutation.
 From NV Require Import Model.ParSort Spec.SortSpec Proofs.C18Facts Proofs.PibFacts.
 Import ListNotations.
